@@ -75,6 +75,7 @@ typedef struct hist_s {
   uint64_t *listed_clk;    /* table number -> clock of its first appearance in leveldb.sstables */
   size_t listed_cap;
   uint64_t unlinks_seen, unlinks_vs_iters;
+  int in_double_reopen;
   int man_obj, man_name;   /* MANIFEST object written most recently (trace order) and its name id */
   uint64_t man_len;        /* bytes of it written so far (trace order) */
   /* key locality: writes concentrate in a sliding window of the universe (narrow files, chained overlaps) */
@@ -345,6 +346,9 @@ static void iter_drive(hist_t *H, iterh_t *I, int ncalls) {
     } else {
       op = (int)vr_uniform(&H->r, 7);
     }
+    /* stepping an invalid iterator is outside the API contract: if the real iterator is not where the model is
+       (already reported), position it again instead of stepping */
+    if (op >= 7 && !ldb_iter_valid(I->it)) op = (int)(vr_next(&H->r) & 1);
     if (op >= 2 && op <= 6) {
       size_t tn = make_target(H, tbuf, &tkind);
       ldb_slice_t t = ldb_slice(tbuf, tn);
@@ -930,6 +934,15 @@ static void structural(hist_t *H, int kind) {
       snprintf(why, sizeof(why), "compact(range)");
       break;
     }
+    case 4: {
+      /* sink: manual compaction of levels 0..5 in turn, data ends up in the bottom level */
+      int level;
+      for (level = 0; level < 6; level++) ldb_test_compact_range(H->h.db, level, NULL, NULL);
+      H->compactions += 6;
+      vh_count("sink_to_bottom_level", 1);
+      snprintf(why, sizeof(why), "sink(L0..L5)");
+      break;
+    }
     default:
       ldb_compact(H->h.db, NULL, NULL);
       H->compactions++;
@@ -948,6 +961,7 @@ static void release_everything(hist_t *H) {
 
 static void do_reopen(hist_t *H, int mutate_cfg) {
   int rc;
+  uint64_t log_c0 = 0, log_m0 = 0;   /* engine compactions / trivial moves logged before this open */
   char *before = NULL;
   layout_t l;
   release_everything(H);
@@ -968,6 +982,7 @@ static void do_reopen(hist_t *H, int mutate_cfg) {
     if (c.cmp_kind == CMP_NOCASE) c.filter_bits = 0;
     dbh_set_cfg(&H->h, &c);
   }
+  log_c0 = H->h.log.compacting; log_m0 = H->h.log.moved;
   rc = dbh_open(&H->h, 0);
   if (rc != LDB_OK) {
     viol(H, "C01", "reopen-failed", "ldb_open of a cleanly closed database returned %d (%s)", rc, ldb_strerror(rc));
@@ -983,7 +998,7 @@ static void do_reopen(hist_t *H, int mutate_cfg) {
       ldb_verif_counters(H->h.db, ctr);
       if (strcmp(before, l.raw) != 0) {
         /* a background compaction may already have been installed */
-        if (H->h.log.compacting == 0 && H->h.log.moved == 0)
+        if (H->h.log.compacting == log_c0 && H->h.log.moved == log_m0)
           viol(H, "C14", "layout-changed-by-reopen", "layout before close:\n%s\nafter open:\n%s", before, l.raw);
         else
           vh_count("c14_reopen_compare_skipped", 1);
@@ -999,6 +1014,14 @@ static void do_reopen(hist_t *H, int mutate_cfg) {
   c13_dir_check(H, "after-reopen");
   layoutmon_check(H->h.db, &H->h, "after-reopen", 1);
   full_check(H, "reopen");
+  /* now and then a second cycle right away: the first open serves from what it replayed, only the second one
+     reads what the first one wrote (the fresh MANIFEST snapshot) */
+  if (!H->in_double_reopen && vr_chance(&H->r, 300)) {
+    H->in_double_reopen = 1;
+    vh_count("double_reopens", 1);
+    do_reopen(H, mutate_cfg);
+    H->in_double_reopen = 0;
+  }
 }
 
 /* ------------------------------------------------------------------ */
@@ -1216,8 +1239,8 @@ static void run_case(uint64_t seed, int caseidx, int focus, const char *base, in
   switch (focus) {
     case F_C06: w.snap = 70; w.unsnap = 45; w.flush = 30; w.crange = 35; w.cmanual = 8; w.idrive = 60; break;
     case F_C07: w.idrive = 500; w.iopen = 40; w.iclose = 25; w.get = 60; w.flush = 22; w.crange = 22; break;
-    case F_C13: w.iopen = 45; w.iclose = 30; w.flush = 40; w.crange = 40; w.reopen = 14; w.idrive = 60; w.midc = 14; break;
-    case F_C14: w.flush = 40; w.crange = 50; w.cmanual = 10; w.reopen = 16; break;
+    case F_C13: w.iopen = 45; w.iclose = 30; w.flush = 40; w.crange = 40; w.reopen = 14; w.idrive = 60; w.midc = 14; w.call = 6; break;
+    case F_C14: w.flush = 40; w.crange = 50; w.cmanual = 10; w.reopen = 16; w.call = 8; break;
     default: break;
   }
   nkeys = 40 + (int)vr_uniform(&H->r, 360);
@@ -1278,7 +1301,7 @@ static void run_case(uint64_t seed, int caseidx, int focus, const char *base, in
     } else if (TAKE(w.cmanual)) {
       structural(H, 2);
     } else if (TAKE(w.call)) {
-      structural(H, 3);
+      structural(H, vr_chance(&H->r, 500) ? 4 : 3);
     } else if (TAKE(w.midc)) {
       flush_mid_compaction(H);
     } else if (TAKE(w.reopen)) {
